@@ -43,9 +43,20 @@ def _flags(R, G, t, p):
 
 def _cases(R, G, t, n):
     out = []
-    for _ in range(n):
-        p = K.gen_pattern(R, G, t)
-        out.append(K.Case(p, _flags(R, G, t, p), None, R.choice(['root_dir', 'root_dir', 'cwd', 'bytes', 'dir_fd'])))
+    for k in range(n):
+        if k % 5 == 4:
+            p = K.gen_pair(R, G, t)
+            fl = _flags(R, G, t, ' '.join(p)) & ~(G.NOUNIQUE)
+            if R.random() < 0.3:
+                # the same two patterns as ONE string
+                if R.random() < 0.5 and not any('|' in q for q in p):
+                    p, fl = '|'.join(p), fl | G.SPLIT
+                elif not any(c in q for q in p for c in '{},'):
+                    p, fl = '{' + ','.join(p) + '}', fl | G.BRACE
+        else:
+            p = K.gen_pattern(R, G, t)
+            fl = _flags(R, G, t, p)
+        out.append(K.Case(p, fl, None, R.choice(['root_dir', 'root_dir', 'cwd', 'bytes', 'dir_fd'])))
     return out
 
 
@@ -172,7 +183,8 @@ def run(ck: Check) -> int:
     stats = {'compared': 0, 'equal': 0, 'equal_nonempty': 0}
 
     def on_case(t, c, st, ev, ms, mev):
-        if st != 'ok' or c.mode in ('bytes', 'dir_fd'):
+        # (every way of naming the root is judged: the dir_fd branch of `_iter` is separate code — seeded change C05h put O_NOFOLLOW on it)
+        if st != 'ok':
             return
         if c.flags & G.FOLLOW or (c.flags & G.GLOBSTARLONG and '***' in c.pats):
             fuel = 8
